@@ -1,6 +1,1468 @@
-//! C06 -- (stub; see DESIGN.md section 5)
-use crate::util::Args;
+//! C06 -- integers, dimensions, glue: scan, print and compute exactly as TeX does.
+//!
+//! Nothing here knows what the right answer is.  The subcommands only *record* what the real
+//! code does (binding F: one ndjson call event per line, validated by specs/Trace_TexArith.tla)
+//! or compare the real code with tables of its own output that TLC has validated entry by entry
+//! (the exhaustive print/scan sweep).
+//!
+//!   c06-direct  out=F seed=N n=N            call events of common::Scaled / common::Glue
+//!   c06-vm      out=F seed=N n=N [pairs=0]  generated TeX programs run on a texlang VM
+//!   c06-sweep   out=F mode=stride|full seed=N count=N threads=N
+//!   c06-run     src=...  [em=N ex=N]        run one program (replay / debugging)
+use crate::util::{catch, quiet_panics, Args, Out, Rng};
+use common::{Glue, GlueOrder, Scaled, ScaledUnit};
+use serde_json::{json, Value};
+use std::cell::{Cell, RefCell};
+use std::collections::HashMap;
+use std::fmt::Write as _;
+use texlang::command;
+use texlang::prelude as txl;
+use texlang::traits::*;
+use texlang::vm::implement_has_component;
+use texlang::*;
+use texlang_stdlib::{expansion, math, registers, the};
 
-pub fn dispatch(_cmd: &str, _args: &Args) -> Option<i32> {
-    None
+pub fn dispatch(cmd: &str, args: &Args) -> Option<i32> {
+    Some(match cmd {
+        "c06-direct" => direct(args),
+        "c06-vm" => vm_events(args),
+        "c06-sweep" => sweep(args),
+        "c06-run" => run_one(args),
+        _ => return None,
+    })
+}
+
+// ------------------------------------------------------------------------------------------
+// the VM under test: the stdlib's register, \the and arithmetic primitives, wired exactly as in
+// texlang_stdlib::built_in_commands(), on a state that supplies the font dimensions for em / ex
+// ------------------------------------------------------------------------------------------
+
+#[derive(Default)]
+struct State {
+    count: registers::Component<i32, 256>,
+    dimen: registers::Component<Scaled, 256>,
+    skip: registers::Component<Glue, 256>,
+    em: Scaled,
+    ex: Scaled,
+}
+
+thread_local! {
+    // what the program has delivered so far; kept outside the VM so that it survives a panic
+    static DELIVERED: RefCell<String> = const { RefCell::new(String::new()) };
+    static ERRORS: Cell<usize> = const { Cell::new(0) };
+}
+
+impl TexlangState for State {
+    fn em_width(&self) -> Scaled {
+        self.em
+    }
+    fn ex_height(&self) -> Scaled {
+        self.ex
+    }
+    fn recoverable_error_hook(
+        &self,
+        _: error::TracedTexError,
+    ) -> Result<(), Box<dyn error::TexError>> {
+        ERRORS.with(|e| e.set(e.get() + 1));
+        Ok(())
+    }
+}
+
+impl the::TheCompatible for State {}
+
+implement_has_component![State {
+    count: registers::Component<i32, 256>,
+    dimen: registers::Component<Scaled, 256>,
+    skip: registers::Component<Glue, 256>,
+}];
+
+struct Handlers;
+
+impl vm::Handlers<State> for Handlers {
+    fn character_handler(
+        input: &mut vm::ExecutionInput<State>,
+        _: token::Token,
+        c: char,
+    ) -> txl::Result<()> {
+        _ = input;
+        DELIVERED.with(|d| d.borrow_mut().push(c));
+        Ok(())
+    }
+}
+
+fn commands() -> HashMap<&'static str, command::BuiltIn<State>> {
+    HashMap::from([
+        ("advance", math::get_advance()),
+        ("count", registers::get_count()),
+        ("dimen", registers::get_dimen()),
+        ("divide", math::get_divide()),
+        ("multiply", math::get_multiply()),
+        ("relax", expansion::get_relax()),
+        ("skip", registers::get_skip()),
+        ("the", the::get_the()),
+    ])
+}
+
+enum Outcome {
+    Done { out: String, errs: usize },
+    /// message, characters delivered before the fatal error
+    Fatal(String, String),
+    /// site, message, characters delivered before the panic
+    Panic(String, String, String),
+}
+
+fn run_program(src: &str, em: i32, ex: i32) -> Outcome {
+    DELIVERED.with(|d| d.borrow_mut().clear());
+    ERRORS.with(|e| e.set(0));
+    let r = catch(|| {
+        let mut vm = vm::VM::<State>::new_with_built_in_commands(commands());
+        vm.state.em = Scaled(em);
+        vm.state.ex = Scaled(ex);
+        if vm.push_source("c06.tex", src).is_err() {
+            return Err("push_source failed".to_string());
+        }
+        match vm.run::<Handlers>() {
+            Ok(()) => Ok(()),
+            Err(e) => Err(e.error.title()),
+        }
+    });
+    let mut out = DELIVERED.with(|d| d.borrow().clone());
+    match r {
+        Ok(Ok(())) => {
+            // the end of the (single) input line yields one space token
+            if out.ends_with(' ') {
+                out.pop();
+            }
+            Outcome::Done { out, errs: ERRORS.with(|e| e.get()) }
+        }
+        Ok(Err(msg)) => Outcome::Fatal(msg, out),
+        Err((site, msg)) => Outcome::Panic(site, msg, out),
+    }
+}
+
+// ------------------------------------------------------------------------------------------
+// programs: structured steps, rendered to TeX source for the VM and to token codes for TLC
+// ------------------------------------------------------------------------------------------
+
+#[derive(Clone, Debug, PartialEq)]
+enum Tok {
+    Ch(char),
+    /// single-character control sequence, only used after `
+    Cs1(char),
+    /// \count i (1), \dimen i (2), \skip i (3); rendered with the space that ends the number
+    Reg(u8, u8),
+}
+
+const REG_NAMES: [&str; 4] = ["", "count", "dimen", "skip"];
+
+#[derive(Clone, Debug)]
+struct Step {
+    op: &'static str, // set adv mul div the
+    t: u8,
+    i: u8,
+    /// a space between the register number and the rest (consumed by the number)
+    idx_space: bool,
+    rhs: Vec<Tok>,
+}
+
+fn render_toks(toks: &[Tok], s: &mut String) {
+    for t in toks {
+        match t {
+            Tok::Ch(c) => s.push(*c),
+            Tok::Cs1(c) => {
+                s.push('\\');
+                s.push(*c);
+            }
+            Tok::Reg(k, i) => {
+                let _ = write!(s, "\\{}{} ", REG_NAMES[*k as usize], i);
+            }
+        }
+    }
+}
+
+fn render(steps: &[Step]) -> String {
+    let mut s = String::new();
+    for st in steps {
+        let reg = format!("\\{}{}", REG_NAMES[st.t as usize], st.i);
+        match st.op {
+            "the" => {
+                let _ = write!(s, "\\the{reg};");
+                continue;
+            }
+            "set" => s.push_str(&reg),
+            "adv" => {
+                let _ = write!(s, "\\advance{reg}");
+            }
+            "mul" => {
+                let _ = write!(s, "\\multiply{reg}");
+            }
+            "div" => {
+                let _ = write!(s, "\\divide{reg}");
+            }
+            _ => unreachable!(),
+        }
+        if st.idx_space {
+            s.push(' ');
+        }
+        render_toks(&st.rhs, &mut s);
+        s.push_str("\\relax ");
+    }
+    s
+}
+
+fn encode_toks(toks: &[Tok]) -> Vec<i64> {
+    toks.iter()
+        .map(|t| match t {
+            Tok::Ch(c) => *c as i64,
+            Tok::Cs1(c) => 1000 + *c as i64,
+            Tok::Reg(k, i) => -(100 * *k as i64 + *i as i64),
+        })
+        .collect()
+}
+
+fn encode(steps: &[Step]) -> Value {
+    Value::Array(
+        steps
+            .iter()
+            .map(|s| json!({"op": s.op, "t": s.t, "i": s.i, "rhs": encode_toks(&s.rhs)}))
+            .collect(),
+    )
+}
+
+fn codes(s: &str) -> Vec<u32> {
+    s.chars().map(|c| c as u32).collect()
+}
+
+fn emit_program(out: &mut Out, steps: &[Step], em: i32, ex: i32, tag: &str) {
+    let src = render(steps);
+    let mut ev = json!({"k": "vm", "tag": tag, "src": src, "em": em, "ex": ex, "steps": encode(steps)});
+    match run_program(&src, em, ex) {
+        Outcome::Done { out: o, errs } => {
+            ev["out"] = json!(codes(&o));
+            ev["errs"] = json!(errs);
+        }
+        Outcome::Fatal(msg, o) => {
+            ev["panic"] = json!(["fatal-error", msg]);
+            ev["out"] = json!(codes(&o));
+        }
+        Outcome::Panic(site, msg, o) => {
+            ev["panic"] = json!([site, msg]);
+            ev["out"] = json!(codes(&o));
+            // which primitive was executing: the shortest prefix of the program that panics
+            for k in 1..=steps.len() {
+                if let Outcome::Panic(..) = run_program(&render(&steps[..k]), em, ex) {
+                    ev["pstep"] = json!(format!("{}-{}", steps[k - 1].op, REG_NAMES[steps[k - 1].t as usize]));
+                    break;
+                }
+            }
+        }
+    }
+    out.line(&ev);
+}
+
+// ---- generator -----------------------------------------------------------------------------
+
+const B32: [i64; 18] = [
+    0,
+    1,
+    -1,
+    2,
+    -2,
+    1 << 15,
+    -(1 << 15),
+    1 << 16,
+    -(1 << 16),
+    (1 << 30) - 1,
+    -((1 << 30) - 1),
+    1 << 30,
+    -(1 << 30),
+    (1 << 31) - 1,
+    -((1 << 31) - 1),
+    -(1 << 31),
+    3,
+    -7,
+];
+
+struct Gen {
+    rng: Rng,
+    /// the last call of tail() appended something
+    tailed: bool,
+}
+
+fn ends_blank(v: &[Tok]) -> bool {
+    // a following space character would not produce a second space token
+    match v.last() {
+        None => false,
+        Some(Tok::Ch(' ')) | Some(Tok::Reg(..)) => true,
+        Some(Tok::Cs1(c)) => c.is_ascii_alphabetic(),
+        _ => false,
+    }
+}
+
+fn push_str(v: &mut Vec<Tok>, s: &str) {
+    for c in s.chars() {
+        v.push(Tok::Ch(c));
+    }
+}
+
+impl Gen {
+    fn maybe_space(&mut self, v: &mut Vec<Tok>, num: u64, den: u64) {
+        if !v.is_empty() && !ends_blank(v) && self.rng.chance(num, den) {
+            v.push(Tok::Ch(' '));
+        }
+    }
+
+    fn kw(&mut self, v: &mut Vec<Tok>, word: &str) {
+        let style = self.rng.below(8);
+        for (k, c) in word.chars().enumerate() {
+            let up = match style {
+                0 => true,
+                1 => k == 0,
+                2 => self.rng.chance(1, 2),
+                _ => false,
+            };
+            v.push(Tok::Ch(if up { c.to_ascii_uppercase() } else { c }));
+        }
+    }
+
+    fn signs(&mut self, v: &mut Vec<Tok>, first_may_be_space: bool) {
+        let n = match self.rng.below(10) {
+            0..=4 => 0,
+            5..=7 => 1,
+            8 => 2,
+            _ => 3,
+        };
+        if first_may_be_space && self.rng.chance(1, 6) && !ends_blank(v) && !v.is_empty() {
+            v.push(Tok::Ch(' '));
+        }
+        for _ in 0..n {
+            v.push(Tok::Ch(if self.rng.chance(2, 3) { '-' } else { '+' }));
+            if self.rng.chance(1, 4) {
+                v.push(Tok::Ch(' '));
+            }
+        }
+    }
+
+    fn big_unsigned(&mut self) -> u64 {
+        const V: [u64; 30] = [
+            0,
+            1,
+            7,
+            8,
+            9,
+            10,
+            255,
+            256,
+            32767,
+            32768,
+            65535,
+            65536,
+            16383,
+            16384,
+            1073741823,
+            1073741824,
+            214748364,
+            214748365,
+            2147483639,
+            2147483640,
+            2147483647,
+            2147483648,
+            2147483649,
+            4294967295,
+            4294967296,
+            21474836470,
+            99999999999,
+            268435455,
+            268435456,
+            134217728,
+        ];
+        match self.rng.below(20) {
+            0..=5 => *self.rng.pick(&V),
+            6..=8 => self.rng.below(1 << 16),
+            9..=10 => self.rng.below(1 << 31),
+            11 => self.rng.below(1 << 33),
+            _ => self.rng.below(100),
+        }
+    }
+
+    /// a numeric constant (no sign); returns true if it is decimal
+    fn constant(&mut self, v: &mut Vec<Tok>, n: u64, allow_radix: bool) -> bool {
+        self.constant_sp(v, n, allow_radix, true)
+    }
+
+    fn constant_sp(&mut self, v: &mut Vec<Tok>, n: u64, allow_radix: bool, hex_space: bool) -> bool {
+        let kind = if allow_radix { self.rng.below(10) } else { 0 };
+        match kind {
+            7 => {
+                push_str(v, &format!("'{n:o}"));
+                false
+            }
+            8 | 9 => {
+                push_str(v, &format!("\"{n:X}"));
+                // a following unit in capitals must not be read as hex digits
+                if hex_space {
+                    v.push(Tok::Ch(' '));
+                }
+                false
+            }
+            _ => {
+                if self.rng.chance(1, 8) {
+                    let z = self.rng.below(3) + 1;
+                    for _ in 0..z {
+                        v.push(Tok::Ch('0'));
+                    }
+                }
+                push_str(v, &n.to_string());
+                true
+            }
+        }
+    }
+
+    fn alpha(&mut self, v: &mut Vec<Tok>, last: bool) {
+        const PLAIN: &str = "AZaz09!?*+-=<>@[]()/.,;:'\"|`m";
+        const CS: &str = "%&#$_{}-7.";
+        v.push(Tok::Ch('`'));
+        match self.rng.below(3) {
+            0 if last => v.push(Tok::Cs1(*self.rng.pick(&['A', 'z', 'q']))),
+            1 => {
+                let c: Vec<char> = CS.chars().collect();
+                v.push(Tok::Cs1(*self.rng.pick(&c)));
+            }
+            _ => {
+                let c: Vec<char> = PLAIN.chars().collect();
+                v.push(Tok::Ch(*self.rng.pick(&c)));
+            }
+        }
+    }
+
+    /// <number>: signs, then a constant / alphabetic constant / internal quantity
+    fn int_text(&mut self, v: &mut Vec<Tok>, regs: &[(u8, u8)]) {
+        self.signs(v, true);
+        match self.rng.below(12) {
+            0 if !regs.is_empty() => {
+                let (k, i) = *self.rng.pick(regs);
+                v.push(Tok::Reg(k, i));
+            }
+            1 => {
+                self.alpha(v, true);
+                if !ends_blank(v) && self.rng.chance(1, 2) {
+                    v.push(Tok::Ch(' '));
+                }
+            }
+            2 => {
+                // a constant directly followed by characters that may or may not belong to it:
+                // whatever the scanner leaves is typeset and shows up in the output
+                let n = self.big_unsigned();
+                self.constant_sp(v, n, true, false);
+                const TAIL: [&str; 14] = ["8", "9", "a", "f", "g", "G", "A", "F", "pt", ".5", "x", "e", "l", "-1"];
+                let t = *self.rng.pick(&TAIL);
+                push_str(v, t);
+            }
+            _ => {
+                let n = self.big_unsigned();
+                self.constant(v, n, true);
+                self.maybe_space(v, 1, 2);
+            }
+        }
+    }
+
+    /// characters after a complete dimension or glue: left for the typesetter
+    fn tail(&mut self, v: &mut Vec<Tok>) {
+        self.tailed = false;
+        // (not after a blank: TeX's scan_keyword skips blanks before a further `l' of fil, texcraft
+        // does not; that difference belongs to keyword scanning, not to this property)
+        if self.rng.chance(1, 10) && !ends_blank(v) && !matches!(v.last(), Some(Tok::Cs1(_))) {
+            const TAIL: [&str; 8] = ["l", "L", "x", "8", "pt", "fil", "em", ".5"];
+            let t = *self.rng.pick(&TAIL);
+            push_str(v, t);
+            self.tailed = true;
+        }
+    }
+
+    fn fraction_digits(&mut self) -> String {
+        const F: [&str; 22] = [
+            "",
+            "0",
+            "5",
+            "9",
+            "25",
+            "99999",
+            "999999",
+            "99998",
+            "99997",
+            "00001",
+            "00000762939453125",
+            "00000762939453124",
+            "000007629394531250000",
+            "0000076293945312499999",
+            "00000762939453126",
+            "0000076293945312",
+            "00002288818359375",
+            "000022888183593749",
+            "99999237060546875",
+            "9999923706054687499",
+            "5000076293945312500",
+            "33333333333333333333",
+        ];
+        if self.rng.chance(1, 3) {
+            (*self.rng.pick(&F)).to_string()
+        } else {
+            let n = self.rng.below(21);
+            (0..n).map(|_| char::from(b'0' + self.rng.below(10) as u8)).collect()
+        }
+    }
+
+    fn int_part(&mut self) -> u64 {
+        const I: [u64; 34] = [
+            0, 1, 2, 9, 12, 100, 226, 227, 575, 576, 1276, 1277, 1365, 1366, 5758, 5759, 15311, 15312,
+            16322, 16323, 16382, 16383, 16384, 32767, 32768, 65535, 65536, 99999, 1073741823,
+            1073741824, 2147483647, 2147483648, 300000000, 99999999999,
+        ];
+        match self.rng.below(20) {
+            0..=4 => *self.rng.pick(&I),
+            5..=13 => self.rng.below(20),
+            14..=16 => self.rng.below(600),
+            17..=18 => self.rng.below(17000),
+            _ => self.rng.below(1 << 32),
+        }
+    }
+
+    fn unit(&mut self, v: &mut Vec<Tok>, inf: bool, regs: &[(u8, u8)]) {
+        const PHYS: [&str; 9] = ["pt", "pc", "in", "bp", "cm", "mm", "dd", "cc", "sp"];
+        let r = self.rng.below(20);
+        if inf && r < 7 {
+            self.kw(v, "fil");
+            let extra = match self.rng.below(8) {
+                0..=2 => 0,
+                3..=4 => 1,
+                5..=6 => 2,
+                _ => 3 + self.rng.below(2),
+            };
+            for _ in 0..extra {
+                v.push(Tok::Ch(if self.rng.chance(1, 6) { 'L' } else { 'l' }));
+            }
+            self.maybe_space(v, 2, 3);
+        } else if r < 9 && !regs.is_empty() {
+            let (k, i) = *self.rng.pick(regs);
+            v.push(Tok::Reg(k, i));
+        } else if r < 11 {
+            let w = if self.rng.chance(1, 2) { "em" } else { "ex" };
+            self.kw(v, w);
+            self.maybe_space(v, 2, 3);
+        } else {
+            let w = *self.rng.pick(&PHYS);
+            self.kw(v, w);
+            self.maybe_space(v, 2, 3);
+        }
+    }
+
+    /// <dimen>: signs, then coefficient and unit, or an internal dimension
+    fn dimen_text(&mut self, v: &mut Vec<Tok>, inf: bool, regs: &[(u8, u8)]) {
+        self.signs(v, true);
+        let dim_regs: Vec<(u8, u8)> = regs.iter().copied().filter(|r| r.0 != 1).collect();
+        let int_regs: Vec<(u8, u8)> = regs.iter().copied().filter(|r| r.0 == 1).collect();
+        match self.rng.below(14) {
+            0 if !dim_regs.is_empty() => {
+                let (k, i) = *self.rng.pick(&dim_regs);
+                v.push(Tok::Reg(k, i));
+            }
+            1 if !int_regs.is_empty() => {
+                let (k, i) = *self.rng.pick(&int_regs);
+                v.push(Tok::Reg(k, i));
+                self.unit(v, inf, regs);
+            }
+            2 => {
+                // octal / hexadecimal / alphabetic coefficient
+                if self.rng.chance(1, 3) {
+                    self.alpha(v, false);
+                } else {
+                    let n = self.int_part();
+                    let mut tmp = Vec::new();
+                    while self.constant(&mut tmp, n, true) {
+                        tmp.clear();
+                    }
+                    v.extend(tmp);
+                }
+                self.maybe_space(v, 1, 2);
+                self.unit(v, inf, regs);
+            }
+            k => {
+                let point = if self.rng.chance(1, 8) { ',' } else { '.' };
+                if k == 3 {
+                    // fraction only
+                    v.push(Tok::Ch(point));
+                    let f = self.fraction_digits();
+                    push_str(v, &f);
+                } else {
+                    let n = self.int_part();
+                    self.constant(v, n, false);
+                    if self.rng.chance(2, 3) {
+                        v.push(Tok::Ch(point));
+                        let f = self.fraction_digits();
+                        push_str(v, &f);
+                    }
+                }
+                self.maybe_space(v, 1, 3);
+                self.unit(v, inf, regs);
+            }
+        }
+    }
+
+    fn glue_text(&mut self, v: &mut Vec<Tok>, regs: &[(u8, u8)]) {
+        let skips: Vec<(u8, u8)> = regs.iter().copied().filter(|r| r.0 == 3).collect();
+        if !skips.is_empty() && self.rng.chance(1, 8) {
+            self.signs(v, true);
+            let (k, i) = *self.rng.pick(&skips);
+            v.push(Tok::Reg(k, i));
+            return;
+        }
+        // the width may not be just an internal glue (that would end the scan); a \skip register
+        // can still be used as a *unit* inside dimen_text
+        let mut w = Vec::new();
+        loop {
+            w.clear();
+            self.dimen_text(&mut w, false, regs);
+            // reject a width that is just an internal glue
+            let body: Vec<&Tok> =
+                w.iter().filter(|t| !matches!(t, Tok::Ch(' ' | '+' | '-'))).collect();
+            if !(body.len() == 1 && matches!(body[0], Tok::Reg(3, _))) {
+                break;
+            }
+        }
+        v.extend(w);
+        if self.rng.chance(3, 5) {
+            self.maybe_space(v, 1, 2);
+            self.kw(v, "plus");
+            self.maybe_space(v, 1, 2);
+            self.dimen_text(v, true, regs);
+        }
+        if self.rng.chance(3, 5) {
+            self.maybe_space(v, 1, 2);
+            self.kw(v, "minus");
+            self.maybe_space(v, 1, 2);
+            self.dimen_text(v, true, regs);
+        }
+    }
+
+    /// the text between the register number and the value of an assignment
+    fn lead_set(&mut self, body: Vec<Tok>) -> (bool, Vec<Tok>) {
+        let mut rhs = Vec::new();
+        let idx_space;
+        match self.rng.below(6) {
+            0 => {
+                // no equals sign: the space ends the register number
+                idx_space = true;
+            }
+            1 => {
+                idx_space = true;
+                rhs.push(Tok::Ch('='));
+            }
+            2 => {
+                idx_space = false;
+                rhs.push(Tok::Ch('='));
+                rhs.push(Tok::Ch(' '));
+            }
+            _ => {
+                idx_space = false;
+                rhs.push(Tok::Ch('='));
+            }
+        }
+        let mut body = body;
+        if (idx_space && rhs.is_empty() || ends_blank(&rhs)) && body.first() == Some(&Tok::Ch(' ')) {
+            body.remove(0);
+        }
+        rhs.extend(body);
+        (idx_space, rhs)
+    }
+
+    fn lead_by(&mut self, body: Vec<Tok>) -> (bool, Vec<Tok>) {
+        let mut rhs = Vec::new();
+        let idx_space;
+        match self.rng.below(6) {
+            0 => {
+                idx_space = true; // no `by`
+            }
+            1 => {
+                idx_space = false;
+                self.kw(&mut rhs, "by");
+            }
+            2 => {
+                idx_space = true;
+                self.kw(&mut rhs, "by");
+            }
+            _ => {
+                idx_space = true;
+                push_str(&mut rhs, "by ");
+            }
+        }
+        let mut body = body;
+        if (idx_space && rhs.is_empty() || ends_blank(&rhs)) && body.first() == Some(&Tok::Ch(' ')) {
+            body.remove(0);
+        }
+        // "by" directly followed by a letter-like start cannot happen: values start with
+        // sign / digit / point / quote / register
+        rhs.extend(body);
+        (idx_space, rhs)
+    }
+
+    fn step_set(&mut self, t: u8, i: u8, body: Vec<Tok>) -> Step {
+        let (idx_space, rhs) = self.lead_set(body);
+        Step { op: "set", t, i, idx_space, rhs }
+    }
+
+    fn step_op(&mut self, op: &'static str, t: u8, i: u8, body: Vec<Tok>) -> Step {
+        let (idx_space, rhs) = self.lead_by(body);
+        Step { op, t, i, idx_space, rhs }
+    }
+}
+
+fn the(t: u8, i: u8) -> Step {
+    Step { op: "the", t, i, idx_space: false, rhs: vec![] }
+}
+
+fn plain_set(t: u8, i: u8, text: &str) -> Step {
+    let mut rhs = vec![Tok::Ch('=')];
+    push_str(&mut rhs, text);
+    Step { op: "set", t, i, idx_space: false, rhs }
+}
+
+fn plain_op(op: &'static str, t: u8, i: u8, text: &str) -> Step {
+    let mut rhs = Vec::new();
+    push_str(&mut rhs, "by ");
+    push_str(&mut rhs, text);
+    Step { op, t, i, idx_space: true, rhs }
+}
+
+fn plain_op_reg(op: &'static str, t: u8, i: u8, k: u8, j: u8) -> Step {
+    let mut rhs = Vec::new();
+    push_str(&mut rhs, "by ");
+    rhs.push(Tok::Reg(k, j));
+    Step { op, t, i, idx_space: true, rhs }
+}
+
+const MAXD: i64 = (1 << 30) - 1;
+
+/// steps that bring a 32-bit value into \count i or (in sp) into \dimen i
+fn load(steps: &mut Vec<Step>, t: u8, i: u8, v: i64) {
+    match t {
+        1 => {
+            if v == -(1 << 31) {
+                steps.push(plain_set(1, i, "-2147483647"));
+                steps.push(plain_op("adv", 1, i, "-1"));
+            } else {
+                steps.push(plain_set(1, i, &v.to_string()));
+            }
+        }
+        2 => {
+            let mut rest = v;
+            let mut first = true;
+            loop {
+                let c = rest.clamp(-MAXD, MAXD);
+                if first {
+                    steps.push(plain_set(2, i, &format!("{c}sp")));
+                    first = false;
+                } else {
+                    steps.push(plain_op("adv", 2, i, &format!("{c}sp")));
+                }
+                rest -= c;
+                if rest == 0 {
+                    break;
+                }
+            }
+        }
+        _ => unreachable!(),
+    }
+}
+
+/// the decimal text of `amount` sp as a multiple of the unit, taken from the code under test
+/// (input generation only: the specification evaluates whatever text results)
+fn coefficient(amount: i64) -> String {
+    let a = amount.clamp(-MAXD, MAXD) as i32;
+    format!("{}", Scaled(a).display_no_units())
+}
+
+const ORDER_UNITS: [&str; 4] = ["pt", "fil", "fill", "filll"];
+
+fn glue_literal(g: &[i64; 5]) -> String {
+    let mut s = format!("{}sp", g[0].clamp(-MAXD, MAXD));
+    if g[1] != 0 || g[2] != 0 {
+        if g[2] == 0 {
+            let _ = write!(s, " plus {}sp", g[1].clamp(-MAXD, MAXD));
+        } else {
+            let _ = write!(s, " plus {}{}", coefficient(g[1]), ORDER_UNITS[g[2] as usize]);
+        }
+    }
+    if g[3] != 0 || g[4] != 0 {
+        if g[4] == 0 {
+            let _ = write!(s, " minus {}sp", g[3].clamp(-MAXD, MAXD));
+        } else {
+            let _ = write!(s, " minus {}{}", coefficient(g[3]), ORDER_UNITS[g[4] as usize]);
+        }
+    }
+    s
+}
+
+fn random_glue(rng: &mut Rng) -> [i64; 5] {
+    let amt = |rng: &mut Rng| -> i64 {
+        match rng.below(6) {
+            0 => 0,
+            1 => *rng.pick(&B32[..11]),
+            2 => rng.range(-200000, 200000),
+            3 => 65536 * rng.range(-20, 20),
+            _ => rng.range(-MAXD, MAXD),
+        }
+    };
+    let ord = |rng: &mut Rng| -> i64 {
+        if rng.chance(1, 2) {
+            0
+        } else {
+            rng.range(1, 3)
+        }
+    };
+    [amt(rng), amt(rng), ord(rng), amt(rng), ord(rng)]
+}
+
+fn font_dims(rng: &mut Rng) -> (i32, i32) {
+    let pick = |rng: &mut Rng| -> i32 {
+        match rng.below(6) {
+            0 => 0,
+            1 => 655360,
+            2 => 282168,
+            3 => -65536,
+            4 => *rng.pick(&[1, 65535, 65537, (1 << 30) - 1, -((1 << 30) - 1), 1 << 29]),
+            _ => rng.range(-(1 << 22), 1 << 22) as i32,
+        }
+    };
+    (pick(rng), pick(rng))
+}
+
+fn vm_events(args: &Args) -> i32 {
+    quiet_panics();
+    let seed: u64 = args.num("seed", 1);
+    let n: u64 = args.num("n", 1000);
+    let pairs: u64 = args.num("pairs", 1);
+    let mut out = Out::new(args.str("out"));
+    let mut g = Gen { rng: Rng::new(seed ^ 0xC06), tailed: false };
+
+    // ---- (a) every ordered pair of boundary operands, for each primitive and register type
+    if pairs != 0 {
+        for &a in B32.iter() {
+            for &b in B32.iter() {
+                for op in ["adv", "mul", "div"] {
+                    // integers
+                    let mut s = Vec::new();
+                    load(&mut s, 1, 1, a);
+                    load(&mut s, 1, 2, b);
+                    s.push(plain_op_reg(op, 1, 1, 1, 2));
+                    s.push(the(1, 1));
+                    emit_program(&mut out, &s, 655360, 282168, "pair-int");
+                    // dimensions (the second operand of \advance is a dimension)
+                    let mut s = Vec::new();
+                    load(&mut s, 2, 1, a);
+                    if op == "adv" {
+                        load(&mut s, 2, 2, b);
+                        s.push(plain_op_reg(op, 2, 1, 2, 2));
+                    } else {
+                        load(&mut s, 1, 2, b);
+                        s.push(plain_op_reg(op, 2, 1, 1, 2));
+                    }
+                    s.push(the(2, 1));
+                    emit_program(&mut out, &s, 655360, 282168, "pair-dimen");
+                    // glue: the operand pair is used for the width and, rotated, for stretch/shrink
+                    if a.abs() <= MAXD && (op != "adv" || b.abs() <= MAXD) {
+                        let c = B32[((a.unsigned_abs() + b.unsigned_abs()) % 11) as usize];
+                        let ga = [a, c, (a.unsigned_abs() % 4) as i64, a, (b.unsigned_abs() % 3) as i64];
+                        let mut s = vec![plain_set(3, 1, &glue_literal(&ga))];
+                        if op == "adv" {
+                            let gb = [b, a, (b.unsigned_abs() % 4) as i64, c, 0];
+                            s.push(plain_op("adv", 3, 1, &glue_literal(&gb)));
+                        } else {
+                            load(&mut s, 1, 2, b);
+                            s.push(plain_op_reg(op, 3, 1, 1, 2));
+                        }
+                        s.push(the(3, 1));
+                        emit_program(&mut out, &s, 655360, 282168, "pair-glue");
+                    }
+                }
+                // coercions with the pair: <count a><dimen b>, -<dimen>, count<-dimen, skip<-...
+                let mut s = Vec::new();
+                load(&mut s, 1, 1, a);
+                load(&mut s, 2, 2, b);
+                s.push(Step { op: "set", t: 2, i: 3, idx_space: false, rhs: vec![Tok::Ch('='), Tok::Reg(1, 1), Tok::Reg(2, 2)] });
+                s.push(the(2, 3));
+                s.push(Step { op: "set", t: 1, i: 4, idx_space: false, rhs: vec![Tok::Ch('='), Tok::Ch('-'), Tok::Reg(2, 2)] });
+                s.push(the(1, 4));
+                emit_program(&mut out, &s, 655360, 282168, "pair-coerce");
+                for unit in ["sp", "pt", "in"] {
+                    let mut s = Vec::new();
+                    load(&mut s, 1, 1, a);
+                    let mut rhs = vec![Tok::Ch('='), Tok::Reg(1, 1)];
+                    push_str(&mut rhs, unit);
+                    s.push(Step { op: "set", t: 2, i: 3, idx_space: false, rhs: rhs.clone() });
+                    s.push(the(2, 3));
+                    rhs.insert(1, Tok::Ch('-'));
+                    push_str(&mut rhs, " plus ");
+                    rhs.push(Tok::Reg(1, 1));
+                    push_str(&mut rhs, "fil");
+                    s.push(Step { op: "set", t: 3, i: 4, idx_space: false, rhs });
+                    s.push(the(3, 4));
+                    emit_program(&mut out, &s, 655360, 282168, "pair-coerce-unit");
+                    if b != a {
+                        break;
+                    }
+                }
+            }
+            // single-operand coercions of a dimension that may be out of TeX's range
+            let mut s = Vec::new();
+            load(&mut s, 2, 1, a);
+            s.push(Step { op: "set", t: 2, i: 2, idx_space: false, rhs: vec![Tok::Ch('='), Tok::Reg(2, 1)] });
+            s.push(the(2, 2));
+            s.push(Step { op: "set", t: 2, i: 3, idx_space: false, rhs: vec![Tok::Ch('='), Tok::Ch('-'), Tok::Reg(2, 1)] });
+            s.push(the(2, 3));
+            emit_program(&mut out, &s, 655360, 282168, "copy-dimen");
+            let mut s = Vec::new();
+            load(&mut s, 2, 1, a);
+            s.push(Step { op: "set", t: 3, i: 2, idx_space: false, rhs: vec![Tok::Ch('='), Tok::Reg(2, 1)] });
+            s.push(the(3, 2));
+            s.push(Step { op: "set", t: 3, i: 3, idx_space: false, rhs: vec![Tok::Ch('='), Tok::Ch('-'), Tok::Reg(2, 1)] });
+            s.push(the(3, 3));
+            s.push(Step { op: "set", t: 1, i: 3, idx_space: false, rhs: vec![Tok::Ch('='), Tok::Reg(3, 3)] });
+            s.push(the(1, 3));
+            emit_program(&mut out, &s, 655360, 282168, "copy-skip");
+            for f in ["0.5", "1.5", ".99999", "0"] {
+                let mut s = Vec::new();
+                load(&mut s, 2, 1, a);
+                let mut rhs = vec![Tok::Ch('=')];
+                push_str(&mut rhs, f);
+                rhs.push(Tok::Reg(2, 1));
+                s.push(Step { op: "set", t: 2, i: 2, idx_space: false, rhs });
+                s.push(the(2, 2));
+                emit_program(&mut out, &s, 655360, 282168, "frac-of-dimen");
+            }
+        }
+    }
+
+    // ---- (a') the fraction that rounds up to 2^16 (102) next to the largest integer parts
+    if pairs != 0 {
+        for ip in ["16383", "16382", "0", "1365", "226"] {
+            for fr in [".99999237060546875", ".9999923706054687499", ".99999", ".999992"] {
+                for unit in ["pt", "sp", "em", "ex", "in", "pc", "fil", "fill", "filll", "\\dimen2 "] {
+                    let mut s = vec![plain_set(2, 2, "1pt")];
+                    let text = if unit.starts_with("fil") {
+                        s.push(plain_set(3, 1, &format!("0pt plus {ip}{fr}{unit} minus -{ip}{fr}{unit}")));
+                        s.push(the(3, 1));
+                        emit_program(&mut out, &s, 65536, 131072, "carry");
+                        continue;
+                    } else {
+                        format!("{ip}{fr}{unit}")
+                    };
+                    if unit.starts_with('\\') {
+                        let mut rhs = vec![Tok::Ch('=')];
+                        push_str(&mut rhs, &format!("{ip}{fr}"));
+                        rhs.push(Tok::Reg(2, 2));
+                        s.push(Step { op: "set", t: 2, i: 1, idx_space: false, rhs });
+                    } else {
+                        s.push(plain_set(2, 1, &text));
+                    }
+                    s.push(the(2, 1));
+                    emit_program(&mut out, &s, 65536, 131072, "carry");
+                }
+            }
+        }
+    }
+
+    // ---- (b) seeded random programs
+    for k in 0..n {
+        let (em, ex) = font_dims(&mut g.rng);
+        let mut steps: Vec<Step> = Vec::new();
+        let mut regs: Vec<(u8, u8)> = Vec::new();
+        match k % 8 {
+            0 => {
+                // an integer constant
+                let mut b = Vec::new();
+                g.int_text(&mut b, &[]);
+                steps.push(g.step_set(1, 1, b));
+                steps.push(the(1, 1));
+            }
+            1 | 2 => {
+                // a dimension constant
+                let mut b = Vec::new();
+                g.dimen_text(&mut b, false, &[]);
+                g.tail(&mut b);
+                steps.push(g.step_set(2, 1, b));
+                steps.push(the(2, 1));
+            }
+            3 => {
+                // a glue constant
+                let mut b = Vec::new();
+                g.glue_text(&mut b, &[]);
+                g.tail(&mut b);
+                steps.push(g.step_set(3, 1, b));
+                steps.push(the(3, 1));
+            }
+            4 => {
+                // random operand pair for one arithmetic primitive
+                let t = 1 + g.rng.below(3) as u8;
+                let op = *g.rng.pick(&["adv", "mul", "div"]);
+                let val = |g: &mut Gen| -> i64 {
+                    match g.rng.below(5) {
+                        0 => *g.rng.pick(&B32),
+                        1 => g.rng.range(-100, 100),
+                        2 => g.rng.range(-70000, 70000),
+                        _ => g.rng.range(-(1 << 31), (1 << 31) - 1),
+                    }
+                };
+                let (a, b) = (val(&mut g), val(&mut g));
+                if t == 3 {
+                    let ga = random_glue(&mut g.rng);
+                    steps.push(plain_set(3, 1, &glue_literal(&ga)));
+                    if op == "adv" {
+                        let gb = random_glue(&mut g.rng);
+                        let mut body = Vec::new();
+                        push_str(&mut body, &glue_literal(&gb));
+                        steps.push(g.step_op("adv", 3, 1, body));
+                    } else {
+                        load(&mut steps, 1, 2, b);
+                        steps.push(plain_op_reg(op, 3, 1, 1, 2));
+                    }
+                } else {
+                    load(&mut steps, t, 1, a);
+                    if op == "adv" && t == 2 {
+                        load(&mut steps, 2, 2, b);
+                        steps.push(plain_op_reg(op, 2, 1, 2, 2));
+                    } else if b > -(1 << 31) && g.rng.chance(1, 2) {
+                        let mut body = Vec::new();
+                        push_str(&mut body, &b.to_string());
+                        g.maybe_space(&mut body, 1, 2);
+                        steps.push(g.step_op(op, t, 1, body));
+                    } else {
+                        load(&mut steps, 1, 2, b);
+                        steps.push(plain_op_reg(op, t, 1, 1, 2));
+                    }
+                }
+                steps.push(the(t, 1));
+            }
+            _ => {
+                // a longer program: registers are filled, combined and read
+                let len = 3 + g.rng.below(6);
+                for _ in 0..len {
+                    let t = 1 + g.rng.below(3) as u8;
+                    let i = g.rng.below(4) as u8;
+                    let op = if regs.contains(&(t, i)) { g.rng.below(6) } else { 0 };
+                    let mut b = Vec::new();
+                    match (op, t) {
+                        (0 | 1, 1) => {
+                            g.int_text(&mut b, &regs);
+                            steps.push(g.step_set(t, i, b));
+                        }
+                        (0 | 1, 2) => {
+                            g.dimen_text(&mut b, false, &regs);
+                            g.tail(&mut b);
+                            steps.push(g.step_set(t, i, b));
+                        }
+                        (0 | 1, _) => {
+                            g.glue_text(&mut b, &regs);
+                            g.tail(&mut b);
+                            steps.push(g.step_set(t, i, b));
+                        }
+                        (2 | 3, 1) => {
+                            g.int_text(&mut b, &regs);
+                            steps.push(g.step_op("adv", t, i, b));
+                        }
+                        (2 | 3, 2) => {
+                            g.dimen_text(&mut b, false, &regs);
+                            steps.push(g.step_op("adv", t, i, b));
+                        }
+                        (2 | 3, _) => {
+                            g.glue_text(&mut b, &regs);
+                            steps.push(g.step_op("adv", t, i, b));
+                        }
+                        (4, _) => {
+                            g.int_text(&mut b, &regs);
+                            steps.push(g.step_op("mul", t, i, b));
+                        }
+                        _ => {
+                            g.int_text(&mut b, &regs);
+                            steps.push(g.step_op("div", t, i, b));
+                        }
+                    }
+                    if !regs.contains(&(t, i)) {
+                        regs.push((t, i));
+                    }
+                    steps.push(the(t, i));
+                }
+            }
+        }
+        // `by` must not be followed directly by a letter; a leading `b`/`B` of the rhs right after
+        // the register number is only ever the keyword.
+        emit_program(&mut out, &steps, em, ex, "random");
+
+        // ---- (c) what \the printed is scanned back (print -> scan round trip inside the VM)
+        if (k % 8 == 1 || k % 8 == 3) && !g.tailed {
+            let src = render(&steps);
+            if let Outcome::Done { out: o, errs: 0 } = run_program(&src, em, ex) {
+                if let Some(text) = o.strip_suffix(';') {
+                    let starts_ok = text.starts_with(|c: char| c == '-' || c.is_ascii_digit());
+                    if !text.contains(';') && starts_ok {
+                        let t = steps[0].t;
+                        let s2 = vec![plain_set(t, 2, text), the(t, 2)];
+                        emit_program(&mut out, &s2, em, ex, "reread");
+                    }
+                }
+            }
+        }
+    }
+    out.flush();
+    0
+}
+
+fn run_one(args: &Args) -> i32 {
+    quiet_panics();
+    let src = args.req("src");
+    match run_program(src, args.num("em", 655360), args.num("ex", 282168)) {
+        Outcome::Done { out, errs } => println!("{}", json!({"out": out, "errs": errs})),
+        Outcome::Fatal(m, o) => println!("{}", json!({"fatal": m, "out": o})),
+        Outcome::Panic(s, m, o) => println!("{}", json!({"panic": [s, m], "out": o})),
+    }
+    0
+}
+
+// ------------------------------------------------------------------------------------------
+// direct call events
+// ------------------------------------------------------------------------------------------
+
+fn frac_digits(f: i32) -> String {
+    // "0.ddddd" -> "ddddd"
+    let s = format!("{}", Scaled(f).display_no_units());
+    s.strip_prefix("0.").map(|x| x.to_string()).unwrap_or(s)
+}
+
+fn with_panic(mut ev: Value, r: Result<Value, (String, String)>) -> Value {
+    match r {
+        Ok(Value::Object(m)) => {
+            for (k, v) in m {
+                ev[k] = v;
+            }
+        }
+        Ok(_) => unreachable!(),
+        Err((site, msg)) => ev["panic"] = json!([site, msg]),
+    }
+    ev
+}
+
+/// any 32-bit value except -2^31 (which is outside the domain of Knuth's routines: negate)
+fn any32(rng: &mut Rng) -> i32 {
+    any32_min(rng).max(-i32::MAX)
+}
+
+fn any32_min(rng: &mut Rng) -> i32 {
+    match rng.below(6) {
+        0 => *rng.pick(&B32) as i32,
+        1 => rng.range(-70000, 70000) as i32,
+        2 => rng.range(-MAXD, MAXD) as i32,
+        3 => (*rng.pick(&B32) + rng.range(-2, 2)).clamp(-(1 << 31), (1 << 31) - 1) as i32,
+        _ => rng.range(-(1 << 31), (1 << 31) - 1) as i32,
+    }
+}
+
+const UNITS: [ScaledUnit; 9] = [
+    ScaledUnit::Point,
+    ScaledUnit::Inch,
+    ScaledUnit::Pica,
+    ScaledUnit::Centimeter,
+    ScaledUnit::Millimeter,
+    ScaledUnit::BigPoint,
+    ScaledUnit::DidotPoint,
+    ScaledUnit::Cicero,
+    ScaledUnit::ScaledPoint,
+];
+const UNIT_NAMES: [&str; 9] = ["pt", "in", "pc", "cm", "mm", "bp", "dd", "cc", "sp"];
+
+fn order_of(o: i64) -> GlueOrder {
+    match o {
+        0 => GlueOrder::Normal,
+        1 => GlueOrder::Fil,
+        2 => GlueOrder::Fill,
+        _ => GlueOrder::Filll,
+    }
+}
+
+fn glue_of(g: &[i64; 5]) -> Glue {
+    Glue {
+        width: Scaled(g[0] as i32),
+        stretch: Scaled(g[1] as i32),
+        stretch_order: order_of(g[2]),
+        shrink: Scaled(g[3] as i32),
+        shrink_order: order_of(g[4]),
+    }
+}
+
+fn glue_arr(g: &Glue) -> Value {
+    json!([g.width.0, g.stretch.0, g.stretch_order as u8, g.shrink.0, g.shrink_order as u8])
+}
+
+fn direct(args: &Args) -> i32 {
+    quiet_panics();
+    let seed: u64 = args.num("seed", 1);
+    let n: u64 = args.num("n", 2000);
+    let mut out = Out::new(args.str("out"));
+    let mut rng = Rng::new(seed ^ 0xD1);
+
+    // all 2^16 fractions, as printed by the code under test
+    for f in 0..65536i32 {
+        let ev = json!({"k": "frac", "f": f});
+        let r = catch(|| {
+            let d: Vec<u32> = frac_digits(f).chars().map(|c| (c as u32).wrapping_sub('0' as u32)).collect();
+            json!({"d": d})
+        });
+        out.line(&with_panic(ev, r));
+    }
+    // every integer part (the sweep uses this table), then boundary and random values
+    let mut print = |s: i32, out: &mut Out| {
+        let ev = json!({"k": "print", "s": s});
+        let r = catch(|| json!({"txt": codes(&format!("{}", Scaled(s)))}));
+        out.line(&with_panic(ev, r));
+    };
+    for i in 0..16384i32 {
+        print(i << 16, &mut out);
+    }
+    for &b in B32.iter() {
+        for d in -2..=2 {
+            print((b + d).clamp(-(1 << 31), (1 << 31) - 1) as i32, &mut out);
+        }
+    }
+    for _ in 0..n {
+        print(any32_min(&mut rng), &mut out);
+    }
+    // round_decimals
+    const DIG: [&str; 12] = [
+        "", "0", "5", "9", "99999", "999999", "00000762939453125", "00000762939453124", "99999999999999999",
+        "00001", "49999999999999999", "50000000000000000",
+    ];
+    for k in 0..n {
+        let dig: Vec<u8> = if (k as usize) < DIG.len() {
+            DIG[k as usize].bytes().map(|b| b - b'0').collect()
+        } else {
+            let len = rng.below(18);
+            (0..len).map(|_| rng.below(10) as u8).collect()
+        };
+        let ev = json!({"k": "rd", "dig": dig});
+        let r = catch(|| json!({"v": Scaled::from_decimal_digits(&dig).0}));
+        out.line(&with_panic(ev, r));
+    }
+    // xn_over_d
+    for k in 0..n {
+        let x = any32(&mut rng);
+        let (nn, d) = match k % 4 {
+            0 => {
+                let (a, b) = UNITS[rng.below(8) as usize].conversion_fraction();
+                (a, b)
+            }
+            1 => (rng.below(65536) as i32, 65536),
+            2 => (*rng.pick(&[0, 1, 2, 65535, 65536, 32768]), *rng.pick(&[1, 2, 3, 65535, 65536, 32768])),
+            _ => (rng.below(65537) as i32, 1 + rng.below(65536) as i32),
+        };
+        let ev = json!({"k": "xnd", "x": x, "n": nn, "d": d});
+        let r = catch(|| match Scaled(x).xn_over_d(nn, d) {
+            Ok((q, r)) => json!({"ok": true, "v": q.0, "rem": r.0}),
+            Err(_) => json!({"ok": false, "v": 0, "rem": 0}),
+        });
+        out.line(&with_panic(ev, r));
+    }
+    // nx_plus_y, checked_div
+    for k in 0..n {
+        let x = any32(&mut rng);
+        let nn = any32(&mut rng);
+        // y is a legal dimension (105 computes max_answer - y)
+        let y = if k % 3 == 0 { 0 } else { (any32(&mut rng) as i64).clamp(-MAXD, MAXD) as i32 };
+        let ev = json!({"k": "nxy", "x": x, "n": nn, "y": y});
+        let r = catch(|| match Scaled(x).nx_plus_y(nn, Scaled(y)) {
+            Ok(v) => json!({"ok": true, "v": v.0}),
+            Err(_) => json!({"ok": false, "v": 0}),
+        });
+        out.line(&with_panic(ev, r));
+        let ev = json!({"k": "xon", "x": x, "n": nn});
+        let r = catch(|| match Scaled(x).checked_div(nn) {
+            Some(v) => json!({"ok": true, "v": v.0}),
+            None => json!({"ok": false, "v": 0}),
+        });
+        out.line(&with_panic(ev, r));
+    }
+    // Scaled::new: integer part, fraction, unit
+    for k in 0..(2 * n) {
+        let i: i32 = match rng.below(5) {
+            0 => *rng.pick(&[0, 1, 226, 227, 575, 576, 1365, 1366, 5758, 5759, 16383, 16384, 1073741823, 1073741824, 2147483647]),
+            1 => rng.below(20) as i32,
+            2 => rng.below(17000) as i32,
+            3 => rng.below(1 << 31) as i32,
+            _ => rng.below(600) as i32,
+        };
+        let f: i32 = if k % 4 == 0 { *rng.pick(&[0, 1, 32768, 65535]) } else { rng.below(65536) as i32 };
+        let u = rng.below(9) as usize;
+        // the specification numbers units as TeX's table does: pt, in pc cm mm bp dd cc, sp
+        let ev = json!({"k": "new", "i": i, "f": f, "unit": u, "name": UNIT_NAMES[u]});
+        let r = catch(|| match Scaled::new(i, Scaled(f), UNITS[u]) {
+            Ok(v) => json!({"ok": true, "v": v.0}),
+            Err(_) => json!({"ok": false, "v": 0}),
+        });
+        out.line(&with_panic(ev, r));
+    }
+    // parse_no_units / parse_from_string on generated decimal texts
+    for k in 0..(2 * n) {
+        let ip: u64 = match rng.below(4) {
+            0 => *rng.pick(&[0, 1, 16382, 16383, 16384, 99999, 2147483647]),
+            1 => rng.below(10),
+            _ => rng.below(17000),
+        };
+        let nd = 1 + rng.below(if k % 5 == 0 { 17 } else { 6 });
+        let fr: String = (0..nd).map(|_| char::from(b'0' + rng.below(10) as u8)).collect();
+        let neg = rng.chance(1, 3);
+        let txt = format!("{}{}.{}", if neg { "-" } else { "" }, ip, fr);
+        let ev = json!({"k": "pnu", "s": txt, "txt": codes(&txt)});
+        let r = catch(|| match Scaled::parse_no_units(&txt) {
+            Ok(v) => json!({"ok": true, "v": v.0}),
+            Err(_) => json!({"ok": false, "v": 0}),
+        });
+        out.line(&with_panic(ev, r));
+        let u = rng.below(9) as usize;
+        let txt = match k % 3 {
+            0 => format!("{}{}", ip, UNIT_NAMES[u]),
+            1 => format!("{}.{}{}", ip, fr, UNIT_NAMES[u]),
+            _ => format!("{}{}.{}{}", if neg && k % 15 == 2 { "-" } else { "" }, ip, fr, UNIT_NAMES[u]),
+        };
+        let ev = json!({"k": "pfs", "s": txt, "txt": codes(&txt)});
+        let r = catch(|| match Scaled::parse_from_string(&txt) {
+            Ok(v) => json!({"ok": true, "v": v.0}),
+            Err(_) => json!({"ok": false, "v": 0}),
+        });
+        out.line(&with_panic(ev, r));
+    }
+    // glue printing and addition
+    for _ in 0..n {
+        let mut a = random_glue(&mut rng);
+        let b = random_glue(&mut rng);
+        if rng.chance(1, 10) {
+            a[0] = any32(&mut rng) as i64;
+        }
+        let ev = json!({"k": "gprint", "g": a});
+        let r = catch(|| json!({"txt": codes(&format!("{}", glue_of(&a)))}));
+        out.line(&with_panic(ev, r));
+        let ev = json!({"k": "gadd", "a": a, "b": b});
+        let r = catch(|| json!({"r": glue_arr(&glue_of(&a).wrapping_add(glue_of(&b)))}));
+        out.line(&with_panic(ev, r));
+    }
+    out.flush();
+    0
+}
+
+// ------------------------------------------------------------------------------------------
+// exhaustive sweep: print(s) against the two TLC-validated tables, and scan(print(s)) = s
+// ------------------------------------------------------------------------------------------
+
+fn sweep(args: &Args) -> i32 {
+    quiet_panics();
+    let mode = args.str("mode").unwrap_or("stride").to_string();
+    let seed: u64 = args.num("seed", 1);
+    let count: u64 = args.num("count", 1 << 22);
+    let threads: u64 = args.num("threads", 8);
+    let mut out = Out::new(args.str("out"));
+
+    // tables of the code under test's own output: exactly the texts of the `frac` events and of
+    // the first 16384 `print` events of c06-direct, each of which TLC has validated.
+    let frac: Vec<String> = (0..65536).map(frac_digits).collect();
+    let ints: Vec<String> = (0..16384i32)
+        .map(|i| {
+            let s = format!("{}", Scaled(i << 16));
+            s.strip_suffix(".0pt").map(|x| x.to_string()).unwrap_or(s)
+        })
+        .collect();
+    let frac = std::sync::Arc::new(frac);
+    let ints = std::sync::Arc::new(ints);
+
+    const SIZE: u64 = (1 << 31) - 1; // |s| <= 2^30-1
+    let total: u64 = if mode == "full" { SIZE } else { count.min(SIZE) };
+    // 2^31-1 is prime, so every step in 1..SIZE-1 generates the whole residue ring
+    let step: u64 = if mode == "full" { 1 } else { 1 + (Rng::new(seed).next() % (SIZE - 2)) };
+    let start: u64 = if mode == "full" { 0 } else { Rng::new(seed ^ 77).next() % SIZE };
+
+    let mut handles = Vec::new();
+    for th in 0..threads {
+        let frac = frac.clone();
+        let ints = ints.clone();
+        handles.push(std::thread::spawn(move || {
+            let lo = th * total / threads;
+            let hi = (th + 1) * total / threads;
+            let mut buf = String::with_capacity(32);
+            let mut want = String::with_capacity(32);
+            let mut bad: Vec<Value> = Vec::new();
+            let mut nbad = 0u64;
+            let mut pos = (start + (lo % SIZE) * (step % SIZE) % SIZE) % SIZE;
+            // (lo*step may exceed u64 only if both near 2^31: 2^62 fits)
+            for _ in lo..hi {
+                let s = pos as i64 - MAXD;
+                pos += step;
+                if pos >= SIZE {
+                    pos -= SIZE;
+                }
+                let s = s as i32;
+                let r = catch(|| {
+                    buf.clear();
+                    let _ = write!(buf, "{}", Scaled(s));
+                    want.clear();
+                    if s < 0 {
+                        want.push('-');
+                    }
+                    let a = s.unsigned_abs();
+                    want.push_str(&ints[(a >> 16) as usize]);
+                    want.push('.');
+                    want.push_str(&frac[(a & 0xFFFF) as usize]);
+                    want.push_str("pt");
+                    if buf != want {
+                        return Some(json!({"s": s, "what": "print", "got": buf.clone(), "want": want.clone()}));
+                    }
+                    let body = &buf[..buf.len() - 2];
+                    match Scaled::parse_no_units(body) {
+                        Ok(Scaled(v)) if v == s => {}
+                        other => {
+                            return Some(json!({"s": s, "what": "parse_no_units", "text": body, "got": format!("{other:?}")}))
+                        }
+                    }
+                    if s >= 0 {
+                        match Scaled::parse_from_string(&buf) {
+                            Ok(Scaled(v)) if v == s => {}
+                            other => {
+                                return Some(json!({"s": s, "what": "parse_from_string", "text": buf.clone(), "got": format!("{other:?}")}))
+                            }
+                        }
+                    }
+                    None
+                });
+                let problem = match r {
+                    Ok(p) => p,
+                    Err((site, msg)) => Some(json!({"s": s, "what": "panic", "panic": [site, msg]})),
+                };
+                if let Some(p) = problem {
+                    nbad += 1;
+                    if bad.len() < 5 {
+                        bad.push(p);
+                    }
+                }
+            }
+            (hi - lo, nbad, bad)
+        }));
+    }
+    let mut checked = 0u64;
+    let mut nbad = 0u64;
+    let mut bad = Vec::new();
+    for h in handles {
+        let (c, n, b) = h.join().expect("sweep thread");
+        checked += c;
+        nbad += n;
+        bad.extend(b);
+    }
+    bad.truncate(10);
+    out.line(&json!({"kind": "sweep", "mode": mode, "checked": checked, "step": step, "start": start,
+                     "bad": nbad, "examples": bad}));
+    out.flush();
+    0
 }
